@@ -22,7 +22,9 @@ Definition gap (s : st) (i : nat) : Prop :=
 Definition pend_at (s : st) (h : handle) : Prop :=
   length (slots s) <= N.to_nat (fst h) \/ gap s (N.to_nat (fst h)).
 
-Record G (s : st) (hs : list handle) (al : list (nat * N)) (rem : list scmd) : Prop := {
+(* E exempts positions of archetype entity lists from the membership clause (used only inside clearArchetype's loop,
+   where the list still holds the entities already released); G is the invariant proper *)
+Record GE (E : nat -> nat -> Prop) (s : st) (hs : list handle) (al : list (nat * N)) (rem : list scmd) : Prop := {
   g_len : length (locs s) = length (slots s);
   g_free_nodup : NoDup (W s);
   g_free_range : forall i, In i (W s) -> N.to_nat i < length (slots s);
@@ -37,10 +39,18 @@ Record G (s : st) (hs : list handle) (al : list (nat * N)) (rem : list scmd) : P
   g_slots : forall i, i < length (slots s) ->
             In (N.of_nat i) (W s) \/ (exists k key, In (k, key) al /\ fst (hnd hs k) = N.of_nat i) \/ gap s i;
   g_arch_keys : NoDup (map a_key (archs s));
-  g_arch_members : forall ai a idx h, nth_error (archs s) ai = Some a -> nth_error (a_ents a) idx = Some h ->
+  g_arch_members : forall ai a idx h, ~ E ai idx -> nth_error (archs s) ai = Some a -> nth_error (a_ents a) idx = Some h ->
                    exists k, In (k, a_key a) al /\ k < length hs /\ hnd hs k = h /\
                              nth_error (locs s) (N.to_nat (fst h)) = Some {| l_arch := Some ai; l_idx := idx |}
 }.
+Definition noex : nat -> nat -> Prop := fun _ _ => False.
+Notation G := (GE noex).
+Arguments g_len {E s hs al rem}. Arguments g_free_nodup {E s hs al rem}. Arguments g_free_range {E s hs al rem}.
+Arguments g_free_ver {E s hs al rem}. Arguments g_hs_ver {E s hs al rem}. Arguments g_hs_id {E s hs al rem}.
+Arguments g_hs_nodup {E s hs al rem}. Arguments g_al_nodup {E s hs al rem}. Arguments g_alive {E s hs al rem}.
+Arguments g_dead {E s hs al rem}. Arguments g_pend {E s hs al rem}. Arguments g_slots {E s hs al rem}.
+Arguments g_arch_keys {E s hs al rem}. Arguments g_arch_members {E s hs al rem}.
+Lemma noex_no ai idx : ~ noex ai idx. Proof. intros []. Qed.
 
 (* ---- what the invariant says about validity ---- *)
 Lemma nth_In_hnd hs k : k < length hs -> In (hnd hs k) hs.
@@ -67,44 +77,44 @@ Proof.
   - right. intros (key & [E|Hin]); [discriminate|apply Hn'; exists key; assumption].
 Qed.
 
-Theorem G_valid s hs al rem k : G s hs al rem -> k < length hs ->
+Theorem G_valid {X} s hs al rem k : GE X s hs al rem -> k < length hs ->
   is_valid s (hnd hs k) = true <-> alive al k.
 Proof.
-  intros HG Hk. pose proof (g_hs_ver s hs al rem HG _ (nth_In_hnd hs k Hk)) as Hv.
+  intros HG Hk. pose proof (g_hs_ver HG _ (nth_In_hnd hs k Hk)) as Hv.
   destruct (hnd hs k) as [i v] eqn:Eh. simpl in Hv. rewrite is_valid_spec by assumption. split.
   - intros H. destruct (alive_dec al k) as [Ha|Hn]; [assumption|exfalso].
     destruct (nth_error (slots s) (N.to_nat i)) as [sl|] eqn:Es; [|discriminate]. apply N.eqb_eq in H.
     (* not alive: dead (slot version larger) or pending (beyond the table or a gap) *)
     destruct (pend_dec rem k) as [Hp|Hp].
-    + destruct (g_pend s hs al rem HG k Hp) as (_ & _ & Hz & [Hlen|(Hgap & _)]); rewrite Eh in *; simpl in *.
+    + destruct (g_pend HG k Hp) as (_ & _ & Hz & [Hlen|(Hgap & _)]); rewrite Eh in *; simpl in *.
       * assert (N.to_nat i < length (slots s)) by (apply nth_error_Some; congruence). lia.
       * rewrite Es in Hgap. inversion Hgap; subst sl. simpl in H. unfold NULL_VER in *. lia.
-    + destruct (g_dead s hs al rem HG k Hk Hn Hp) as (sl' & Es' & Hlt). rewrite Eh in *. simpl in *. rewrite Es in Es'. inversion Es'; subst. lia.
+    + destruct (g_dead HG k Hk Hn Hp) as (sl' & Es' & Hlt). rewrite Eh in *. simpl in *. rewrite Es in Es'. inversion Es'; subst. lia.
   - intros Ha. unfold alive in Ha. apply in_map_iff in Ha. destruct Ha as ((k', key) & E & Hin). simpl in E. subst k'.
-    destruct (g_alive s hs al rem HG k key Hin) as (_ & _ & Hs & _). rewrite Eh in Hs. simpl in Hs. rewrite Hs. simpl. apply N.eqb_refl.
+    destruct (g_alive HG k key Hin) as (_ & _ & Hs & _). rewrite Eh in Hs. simpl in Hs. rewrite Hs. simpl. apply N.eqb_refl.
 Qed.
 
 (* ------------------------------------------------------------------------------------------ *)
 (* facts about live handles *)
-Lemma live_ids_distinct s hs al rem k1 key1 k2 key2 :
-  G s hs al rem -> In (k1, key1) al -> In (k2, key2) al -> fst (hnd hs k1) = fst (hnd hs k2) -> k1 = k2.
+Lemma live_ids_distinct {X} s hs al rem k1 key1 k2 key2 :
+  GE X s hs al rem -> In (k1, key1) al -> In (k2, key2) al -> fst (hnd hs k1) = fst (hnd hs k2) -> k1 = k2.
 Proof.
   intros HG H1 H2 E.
-  destruct (g_alive s hs al rem HG k1 key1 H1) as (L1 & _ & S1 & _).
-  destruct (g_alive s hs al rem HG k2 key2 H2) as (L2 & _ & S2 & _).
+  destruct (g_alive HG k1 key1 H1) as (L1 & _ & S1 & _).
+  destruct (g_alive HG k2 key2 H2) as (L2 & _ & S2 & _).
   rewrite E in S1. rewrite S1 in S2. inversion S2 as [[E1 E2]].
   assert (Eh : hnd hs k1 = hnd hs k2) by (destruct (hnd hs k1), (hnd hs k2); simpl in *; congruence).
-  unfold hnd in Eh. eapply (proj1 (NoDup_nth hs null_handle)); [exact (g_hs_nodup s hs al rem HG)|assumption|assumption|exact Eh].
+  unfold hnd in Eh. eapply (proj1 (NoDup_nth hs null_handle)); [exact (g_hs_nodup HG)|assumption|assumption|exact Eh].
 Qed.
 
-Lemma hnd_inj s hs al rem k1 k2 : G s hs al rem -> k1 < length hs -> k2 < length hs -> hnd hs k1 = hnd hs k2 -> k1 = k2.
-Proof. intros HG H1 H2 E. eapply (proj1 (NoDup_nth hs null_handle)); [exact (g_hs_nodup s hs al rem HG)| | |]; assumption. Qed.
+Lemma hnd_inj {X} s hs al rem k1 k2 : GE X s hs al rem -> k1 < length hs -> k2 < length hs -> hnd hs k1 = hnd hs k2 -> k1 = k2.
+Proof. intros HG H1 H2 E. eapply (proj1 (NoDup_nth hs null_handle)); [exact (g_hs_nodup HG)| | |]; assumption. Qed.
 
-Lemma live_not_null s hs al rem k key : G s hs al rem -> In (k, key) al ->
+Lemma live_not_null {X} s hs al rem k key : GE X s hs al rem -> In (k, key) al ->
   nth_error (slots s) (N.to_nat (fst (hnd hs k))) <> Some null_slot.
 Proof.
-  intros HG H. destruct (g_alive s hs al rem HG k key H) as (L & _ & S & _). rewrite S. intros E. inversion E as [[E1 E2]].
-  pose proof (g_hs_ver s hs al rem HG _ (nth_In_hnd hs k L)). rewrite E2 in H0. unfold NULL_VER in H0. lia.
+  intros HG H. destruct (g_alive HG k key H) as (L & _ & S & _). rewrite S. intros E. inversion E as [[E1 E2]].
+  pose proof (g_hs_ver HG _ (nth_In_hnd hs k L)). rewrite E2 in H0. unfold NULL_VER in H0. lia.
 Qed.
 
 Definition kill_in al k k' key : In (k', key) (kill al k) <-> In (k', key) al /\ k' <> k.
@@ -153,7 +163,7 @@ Lemma G_remove s s' hs al rem k key i v ai idx a ents' :
   G s' hs (kill al k) rem.
 Proof.
   intros HG Hk Eh Hnw Hloc Harch Hent Eslots Enext Eempty Earchs Elen Hnew Hkeep Hother.
-  destruct (g_alive s hs al rem HG k key Hk) as (Hklt & HnW & Hslot & _). rewrite Eh in HnW, Hslot. simpl in HnW, Hslot.
+  destruct (g_alive HG k key Hk) as (Hklt & HnW & Hslot & _). rewrite Eh in HnW, Hslot. simpl in HnW, Hslot.
   assert (Hi : N.to_nat i < length (slots s)) by (apply nth_error_Some; congruence).
   assert (Hai : ai < length (archs s)) by (apply nth_error_Some; congruence).
   assert (EW : W s' = i :: W s).
@@ -162,25 +172,25 @@ Proof.
   assert (Hmem : forall h', In h' (a_ents a) -> exists k' idx', In (k', a_key a) al /\ k' < length hs /\ hnd hs k' = h' /\
                     nth_error (locs s) (N.to_nat (fst h')) = Some {| l_arch := Some ai; l_idx := idx' |}).
   { intros h' Hin. apply In_nth_error in Hin. destruct Hin as (idx' & Hn).
-    destruct (g_arch_members s hs al rem HG ai a idx' h' Harch Hn) as (k' & A & B & C & D). exists k', idx'. auto. }
+    destruct (g_arch_members HG ai a idx' h' (noex_no _ _) Harch Hn) as (k' & A & B & C & D). exists k', idx'. auto. }
   (* a handle with id i among the alive ones is k *)
   assert (Hid : forall k' key', In (k', key') al -> fst (hnd hs k') = i -> k' = k).
   { intros k' key' Hin E. eapply (live_ids_distinct s hs al rem); eauto. rewrite Eh. exact E. }
   constructor.
-  - rewrite Elen, Eslots, upd_length. apply (g_len s hs al rem HG).
-  - rewrite EW. constructor; [assumption|apply (g_free_nodup s hs al rem HG)].
-  - intros j Hj. rewrite EW in Hj. rewrite Eslots, upd_length. destruct Hj as [<-|Hj]; [assumption|apply (g_free_range s hs al rem HG); assumption].
+  - rewrite Elen, Eslots, upd_length. apply (g_len HG).
+  - rewrite EW. constructor; [assumption|apply (g_free_nodup HG)].
+  - intros j Hj. rewrite EW in Hj. rewrite Eslots, upd_length. destruct Hj as [<-|Hj]; [assumption|apply (g_free_range HG); assumption].
   - intros j sl Hj Hs. rewrite EW in Hj. rewrite Eslots in Hs. destruct (N.eq_dec j i) as [->|Hne].
     + rewrite nth_error_upd_same in Hs by assumption. inversion Hs; subst sl. simpl. assumption.
     + destruct Hj as [E|Hj]; [congruence|]. rewrite nth_error_upd_other in Hs by (intros E; apply Hne; apply N2Nat.inj; auto).
-      eapply (g_free_ver s hs al rem HG); eassumption.
-  - apply (g_hs_ver s hs al rem HG).
-  - apply (g_hs_id s hs al rem HG).
-  - apply (g_hs_nodup s hs al rem HG).
-  - apply kill_nodup. apply (g_al_nodup s hs al rem HG).
+      eapply (g_free_ver HG); eassumption.
+  - apply (g_hs_ver HG).
+  - apply (g_hs_id HG).
+  - apply (g_hs_nodup HG).
+  - apply kill_nodup. apply (g_al_nodup HG).
   - (* alive *)
     intros k' key' Hin. apply kill_in in Hin. destruct Hin as (Hin & Hne).
-    destruct (g_alive s hs al rem HG k' key' Hin) as (Hk'lt & HnW' & Hslot' & ai' & idx' & a' & Hloc' & Harch' & Hkey' & Hent').
+    destruct (g_alive HG k' key' Hin) as (Hk'lt & HnW' & Hslot' & ai' & idx' & a' & Hloc' & Harch' & Hkey' & Hent').
     split; [assumption|].
     assert (Hne_i : fst (hnd hs k') <> i) by (intros E; apply Hne; eapply Hid; eauto).
     split; [rewrite EW; intros [E|E]; [congruence|contradiction]|].
@@ -206,13 +216,13 @@ Proof.
     + rewrite Eh. exists {| s_id := match empty_slots s with O => (i + 1)%N | S _ => next_slot s end; s_ver := (v + 1)%N |}. simpl.
       rewrite Eslots, nth_error_upd_same by assumption. split; [reflexivity|lia].
     + assert (Hna' : ~ alive al k') by (intros Ha; apply Hna; apply kill_alive; auto).
-      destruct (g_dead s hs al rem HG k' Hk'lt Hna' Hnp) as (sl & Hs & Hlt). unfold dead_at in *. rewrite Eslots.
+      destruct (g_dead HG k' Hk'lt Hna' Hnp) as (sl & Hs & Hlt). unfold dead_at in *. rewrite Eslots.
       destruct (Nat.eq_dec (N.to_nat i) (N.to_nat (fst (hnd hs k')))) as [E|E].
       * rewrite <- E in Hs |- *. rewrite Hslot in Hs. inversion Hs; subst sl. simpl in Hlt.
         eexists. rewrite nth_error_upd_same by assumption. split; [reflexivity|]. simpl. lia.
       * exists sl. rewrite nth_error_upd_other by assumption. auto.
   - (* pending *)
-    intros k' Hp. destruct (g_pend s hs al rem HG k' Hp) as (A & B & C & D). split; [assumption|]. split; [intros Ha; apply kill_alive in Ha; tauto|]. split; [assumption|].
+    intros k' Hp. destruct (g_pend HG k' Hp) as (A & B & C & D). split; [assumption|]. split; [intros Ha; apply kill_alive in Ha; tauto|]. split; [assumption|].
     unfold pend_at, gap in *. rewrite Eslots, upd_length, EW. destruct D as [D|(D1 & D2)]; [left; assumption|right].
     assert (Hne : N.to_nat (fst (hnd hs k')) <> N.to_nat i).
     { intros E. rewrite E in D1. rewrite Hslot in D1. inversion D1 as [[E1 E2]]. unfold NULL_VER in *. lia. }
@@ -221,7 +231,7 @@ Proof.
   - (* every slot *)
     intros j Hj. rewrite Eslots, upd_length in Hj. unfold gap in *. rewrite EW.
     destruct (Nat.eq_dec j (N.to_nat i)) as [->|Hne]; [left; left; rewrite N2Nat.id; reflexivity|].
-    destruct (g_slots s hs al rem HG j Hj) as [H|[(k' & key' & Hin & E)|(H1 & H2)]].
+    destruct (g_slots HG j Hj) as [H|[(k' & key' & Hin & E)|(H1 & H2)]].
     + left. right. assumption.
     + right. left. exists k', key'. split; [|assumption]. apply kill_in. split; [assumption|]. intros ->. rewrite Eh in E. simpl in E. apply Hne. rewrite E, Nat2N.id. reflexivity.
     + right. right. split; [rewrite Eslots, nth_error_upd_other by congruence; assumption|].
@@ -230,16 +240,16 @@ Proof.
     rewrite Earchs. assert (E : map a_key (upd (archs s) ai {| a_key := a_key a; a_ents := ents' |}) = map a_key (archs s)).
     { clear - Harch. revert ai Harch. induction (archs s) as [|x t IH]; intros [|n] H; simpl in *; try discriminate; [inversion H; subst; reflexivity|].
       f_equal. apply IH. assumption. }
-    rewrite E. apply (g_arch_keys s hs al rem HG).
+    rewrite E. apply (g_arch_keys HG).
   - (* members of every archetype *)
-    intros ai' a' idx' h' Ha' Hh'. rewrite Earchs in Ha'.
+    intros ai' a' idx' h' _ Ha' Hh'. rewrite Earchs in Ha'.
     destruct (Nat.eq_dec ai ai') as [<-|Hnai].
     + rewrite nth_error_upd_same in Ha' by assumption. inversion Ha'; subst a'. simpl in *.
       destruct (Hnew idx' h' Hh') as (Hne & Hin & Hl).
       destruct (Hmem h' Hin) as (k' & idx'' & A & B & C & D). exists k'. split; [|auto].
       apply kill_in. split; [assumption|]. intros ->. apply Hne. congruence.
     + rewrite nth_error_upd_other in Ha' by assumption.
-      destruct (g_arch_members s hs al rem HG ai' a' idx' h' Ha' Hh') as (k' & A & B & C & D). exists k'.
+      destruct (g_arch_members HG ai' a' idx' h' (noex_no _ _) Ha' Hh') as (k' & A & B & C & D). exists k'.
       assert (Hnk : k' <> k).
       { intros ->. rewrite Eh in C. subst h'. simpl in D. rewrite Hloc in D. inversion D. congruence. }
       split; [apply kill_in; auto|]. split; [assumption|]. split; [assumption|].
